@@ -76,7 +76,7 @@ Inductive fop :=
 | Fstat (fd : nat)
 | Fsync (fd : nat)
 | Fchmod (fd : nat) (perm : N)                  (* permission bits only, 0..0o777 *)
-| Fchown (fd : nat) (uid gid : Z)               (* uid, gid >= 0 *)
+| Fchown (fd : nat) (uid gid : Z)               (* -1 leaves the id unchanged *)
 | Fchdir (fd : nat)
 | Close (fd : nat)
 | PTruncate (name : str) (size : Z)
@@ -280,7 +280,8 @@ Definition fspec_step (st : fstate) (op : fop) : fstate * sres :=
   | Fchown fd uid gid =>
       on_fd st fd (fun o ino =>
         (with_inode st (o_ino o) {| i_bytes := i_bytes ino; i_nlink := i_nlink ino; i_perm := i_perm ino;
-                                    i_uid := uid; i_gid := gid |}, S_Ok))
+                                    i_uid := if Z.eqb uid (-1) then i_uid ino else uid;
+                                    i_gid := if Z.eqb gid (-1) then i_gid ino else gid |}, S_Ok))
   | Fchdir fd => on_fd st fd (fun o ino => (st, S_Err X_NOTDIR))
   | Close fd =>
       on_fd st fd (fun o ino =>
